@@ -1,4 +1,4 @@
-// KNOWN FINDING (open): after a single approved utilize request, lastTransitionTo() is null for the
+// FIXED by /repo 0be64ac (was a known finding): after a single approved utilize request, lastTransitionTo() was null for the
 // sub-state that the utility evaluation picked. Expected exit code 0; the library returns 1.
 #define HFSM2_ENABLE_UTILITY_THEORY
 #define HFSM2_ENABLE_TRANSITION_HISTORY
